@@ -64,9 +64,27 @@ def cases(rng, tier):
         if r < 0.04:
             p["instrs"].insert(rng.randint(0, len(p["instrs"])), {"name": "x", "qubits": [0], "cond": True})
             p["ncl"] = max(1, p["ncl"])
-        elif r < 0.08 and p["ncl"] > 0:
+        elif r < 0.1:
+            # a classically conditioned measurement or reset (must be refused like any conditioned operation)
+            p["ncl"] = max(2, p["ncl"])
+            ins = rng.choice([{"name": "measure", "qubits": [rng.randrange(p["nq"])], "clbits": [1], "cond": True},
+                              {"name": "reset", "qubits": [rng.randrange(p["nq"])], "cond": True}])
+            p["instrs"].insert(rng.randint(0, len(p["instrs"])), ins)
+            p["instrs"].insert(0, {"name": "h", "qubits": [0]})
+            p["instrs"].insert(1, {"name": "measure", "qubits": [0], "clbits": [0]})
+        elif r < 0.14 and p["ncl"] > 0:
             p["instrs"].insert(rng.randint(0, len(p["instrs"])), {"name": "opaque_cl", "qubits": [0], "clbits": [0]})
         yield ("simulate", p)
+    # two circuits of identical layout sampled one after the other through ExactSampler; they differ only in the definition of a
+    # user-defined gate of the same name (a result cache keyed without the definition would answer the second from the first)
+    for _ in range(max(6, N // 25)):
+        nq = rng.randint(1, 3)
+        inner_a = [{"name": rng.choice(["h", "x", "sx", "id", "s"]), "qubits": [0]} for _ in range(rng.randint(1, 2))]
+        inner_b = [{"name": rng.choice(["h", "x", "sx", "id", "y"]), "qubits": [0]} for _ in range(rng.randint(1, 2))]
+        q = rng.randrange(nq)
+        tail = [{"name": "h", "qubits": [rng.randrange(nq)]}] + [{"name": "measure", "qubits": [k], "clbits": [k]} for k in range(nq)]
+        yield ("simulate", {"nq": nq, "ncl": nq, "via": "sampler", "instrs": [{"name": "custom", "qubits": [q], "inner": inner_b}] + tail,
+                            "before": [{"name": "custom", "qubits": [q], "inner": inner_a}] + tail})
     # overwrite-heavy family: bits that already hold 1 are written again
     for _ in range(N // 5):
         nq = rng.randint(1, 3)
@@ -82,16 +100,21 @@ def search_cases(rng, tier):
         yield ("simulate", _gen(rng, "thorough", clifford=rng.random() < 0.4))
 
 
-def _circ(payload):
+def _circ(payload, key="instrs"):
     from qiskit.circuit import QuantumCircuit, QuantumRegister, ClassicalRegister, Instruction, CircuitInstruction
     regs = [QuantumRegister(payload["nq"], "q")]
     if payload["ncl"]:
         regs.append(ClassicalRegister(payload["ncl"], "c"))
     qc = QuantumCircuit(*regs)
-    for ins in payload["instrs"]:
+    for ins in payload[key]:
         qs = [qc.qubits[q] for q in ins["qubits"]]
         cs = [qc.clbits[c] for c in ins.get("clbits", [])]
-        if ins["name"] == "opaque_cl":
+        if ins["name"] == "custom":
+            sub = QuantumCircuit(1, name="prep")
+            for i2 in ins["inner"]:
+                sub.append(canon.mk_op(i2["name"]), [0])
+            op = sub.to_gate()
+        elif ins["name"] == "opaque_cl":
             op = Instruction("opaque_cl", 1, 1, [])
         elif ins["name"] == "barrier":
             op = canon.mk_op("barrier", [len(qs)])
@@ -109,14 +132,26 @@ def _circ(payload):
     return qc
 
 
+def _flat(instrs):
+    out = []
+    for i in instrs:
+        if i["name"] == "custom":
+            out += [{"name": j["name"], "qubits": i["qubits"]} for j in i["inner"]]
+        else:
+            out.append(i)
+    return out
+
+
 def model_line(kind, payload):
     return {"op": "c13.simulate", "nq": payload["nq"],
-            "instrs": [{"name": i["name"], "qubits": i["qubits"], "clbits": i.get("clbits", []), "conditioned": bool(i.get("cond")), "t": i.get("t", "0/1")} for i in payload["instrs"]]}
+            "instrs": [{"name": i["name"], "qubits": i["qubits"], "clbits": i.get("clbits", []), "conditioned": bool(i.get("cond")), "t": i.get("t", "0/1")} for i in _flat(payload["instrs"])]}
 
 
 def run_real(kind, payload):
     from qiskit_addon_cutting.utils.simulation import simulate_statevector_outcomes, ExactSampler
     qc = _circ(payload)
+    if payload.get("before"):
+        ExactSampler().run([_circ(payload, "before")]).result()
     if payload.get("via") == "sampler":
         quasi = ExactSampler().run([qc]).result().quasi_dists[0]
         d = {int(k): float(v) for k, v in quasi.items()}
@@ -160,12 +195,13 @@ def nontrivial_key(kind, payload):
 def oracle(kind, payload):
     from ..oracles import sem
     refused = any(i.get("cond") or (i["name"] not in ("measure",) and i.get("clbits")) for i in payload["instrs"])
+    flat = dict(payload, instrs=_flat(payload["instrs"]))
     real = call_real(lambda p: run_real(kind, p), payload)
     if refused:
         return None if real.get("error") == "ValueError" else f"classically conditioned / classical-argument operation not refused with ValueError: {str(real)[:120]}"
     if "error" in real:
         return f"sampler raised {real['error']}"
-    qc = _circ(payload)
+    qc = _circ(flat)
     br = sem.simulate(qc)
     exp = {int(k): float(np.real(np.trace(r))) for k, r in br.items() if abs(np.trace(r)) > 1e-13}
     got = {k: v for k, v in real["ok"] if abs(v) > 1e-13}
